@@ -347,10 +347,12 @@ def run(tier):
         progs = [p for p in progs if p.pid.startswith(only)]
     _PROGS = progs
     try:
-        recs = core.pool_map(_build, list(range(len(progs))))
+        recs = core.pool_map(_build, list(range(len(progs))),
+                             procs=int(os.environ.get("C01_WORKERS", "0")) or None)
     finally:
         _PROGS = None
-    cov = check_programs(out, progs, recs)
+    nw = int(os.environ.get("C01_WORKERS", "0")) or None
+    cov = check_programs(out, progs, recs, workers=nw)
     cov["rule"] = ("one case = one generated program (reference pv-ast, PSyIR after reading, PSyIR "
                    "after writing and re-reading); non-trivial = read and written without error, "
                    "exported, and the reference is defined on at least one input")
